@@ -221,6 +221,11 @@ let next_audit c =
   let proofs = next_list c (fun c -> let ins = next_velems c in let unch = next_velems c in (ins, unch)) in
   let eps = next_list c (fun c -> n_of_dec (next c)) in
   { ap_proofs = proofs; ap_epochs = eps }
+let ser_audit_raw p =
+  String.concat " " ([string_of_int (List.length p.ap_proofs)] @
+                     List.map (fun (ins, unch) -> fmt_velems ins ^ " " ^ fmt_velems unch) p.ap_proofs @
+                     [ser_list dec_of_n p.ap_epochs])
+let pres_str r f = match r with POk a -> "ok " ^ f a | PReject -> "err" | POutside -> "OUTSIDE"
 let parse_hparams s = if s = "c" then HComplete else HMostRecent (n_of_dec (String.sub s 1 (String.length s - 1)))
 let fmt_res r = Printf.sprintf "%s %s %s" (dec_of_n r.r_epoch) (dec_of_n r.r_version) (fmt_hb r.r_value)
 let ser_state (st : dstate) =
@@ -403,6 +408,26 @@ let answer (c : cur) : string =
   | "vaudit1" -> let cfg = cfg_of (next c) in let h1 = next_bytes c in let h2 = next_bytes c in let ep = n_of_dec (next c) in
     let ins = next_velems c in let unch = next_velems c in
     if verify_consecutive cfg !pf_check (ins, unch) h1 h2 ep then "1" else "0"
+  | "wire_lookup" -> let p = next_lookup c in hex_of_bytes (enc_lookup p)
+  | "wire_history" -> let p = next_history c in hex_of_bytes (enc_history p)
+  | "wire_audit" -> let p = next_audit c in hex_of_bytes (enc_audit p)
+  | "wire_single" -> let ins = next_velems c in let unch = next_velems c in fmt_hb (enc_single (ins, unch))
+  | "wdec_lookup" -> pres_str (dec_lookup (hb_of (next c))) ser_lookup
+  | "wdec_history" -> pres_str (dec_history (hb_of (next c))) ser_history
+  | "wdec_audit" -> pres_str (dec_audit (hb_of (next c))) ser_audit_raw
+  | "wdec_single" -> pres_str (dec_single (hb_of (next c))) (fun (i, u) -> fmt_velems i ^ " " ^ fmt_velems u)
+  | "wdec_label" -> pres_str (dec_label (hb_of (next c))) fmt_label
+  | "wdec_elem" -> pres_str (dec_elem (hb_of (next c))) (fun e -> fmt_label e.e_label ^ " " ^ hex_of_bytes e.e_value)
+  | "wdec_sib" -> pres_str (dec_sib (hb_of (next c)))
+                    (fun s -> Printf.sprintf "%s %s %s %d" (fmt_label s.sp_label) (fmt_label s.sp_sib_label) (hex_of_bytes s.sp_sib_val) (if s.sp_dir then 1 else 0))
+  | "blobname" -> let e = n_of_dec (next c) in let p = next_bytes c in let q = next_bytes c in
+    String.concat "" (List.map (fun x -> String.make 1 (Char.chr (int_of_n x))) (blob_name e p q))
+  | "blobparse" -> pres_str (parse_blob_name (hb_of (next c)))
+                     (fun ((e, p), q) -> Printf.sprintf "%s %s %s" (dec_of_n e) (hex_of_bytes p) (hex_of_bytes q))
+  | "vrfinput" -> let cfg = cfg_of (next c) in let l = hb_of (next c) in let f = bool_of (next c) in let v = n_of_dec (next c) in
+    hex_of_bytes (label_input_hash cfg l f v)
+  | "freshval" -> let cfg = cfg_of (next c) in let ck = next_bytes c in let nl = { lval = next_bytes c; llen = n_of_int 256 } in
+    let v = n_of_dec (next c) in let value = hb_of (next c) in hex_of_bytes (fresh_value cfg ck nl v value)
   | _ -> "?"
 
 let () =
